@@ -67,6 +67,15 @@ P.update({
              note="u32/u64 prefixes would need >= 4 GiB values: not attempted", ref="4 C18"),
 })
 
+P.update({
+ "C19": dict(engine="schedx", technique="stateless model checking of the real registry under a controlled scheduler: all interleavings at visible operations (locks, accesses to package-level state), linearizability by brute force against a map model, vector-clock happens-before race monitor",
+             text="The real codec registry, instrumented through a build overlay (scheduling points at every lock operation and before every statement touching the registry's fields, R/W events), is run under our scheduler for 8,244 scenarios (2 threads x <=2 ops, 3 threads x 1 op, 8-op alphabet, 3 initial states): every interleaving is executed (6.5M schedules; 12 scenarios to preemption bound 2); each execution's call/return history plus final look-ups must be linearizable w.r.t. a plain map, free of happens-before races and deadlocks. A free-running -race pass of the same operations is an adjunct only.",
+             note="scheduling granularity = visible operations (validated: statement-granularity exploration yields the same 16,464 distinct outcomes); memory effects below happens-before not modelled", ref="3.5, 4 C19"),
+ "C20": dict(engine="schedx", technique="sequential global-state invariant (deep hash of all package-level variables around every call) + preemption-bounded schedule exploration of independent Encode/Decode pairs on the instrumented build with an HB race monitor",
+             text="(a) Every Encode/Decode over V1 of all 170 types leaves a deep hash of all 20 package-level variables unchanged; (b) two threads running Encode+Decode of different values of the same type (all 170 self-pairs; cross-protocol and 3-thread frame scenarios in thorough) under the controlled scheduler, all schedules with <=1 preemption at function-entry granularity (quick) / <=2 at statement granularity (thorough): per-thread results equal the sequential ones, no HB race on package-level state, no deadlock.",
+             note="shared heap objects reachable only through pointers are covered by result comparison and the -race adjunct, not by the HB monitor; goroutines started by the library itself are not controlled", ref="3.5, 4 C20"),
+})
+
 NOT_YET = {
 }
 
@@ -100,6 +109,7 @@ def main():
         "engines": [
             {"name": "refmodel", "path": "engine/refmodel", "serves_properties": ["C01", "C02", "C03", "C04", "C05", "C06", "C07", "C08", "C11", "C12"], "kind_free_text": "independent interpreter of the pinned schema + layout walk + bitwise checksum references"},
             {"name": "valenum", "path": "engine/valenum", "serves_properties": ["C01", "C02", "C03", "C17", "C18"], "kind_free_text": "small-scope value enumerator (k deviations from two bases)"},
+            {"name": "schedx", "path": "cmd/sched + shim/{vrt,vsync,vatomic} + tools/instrument", "serves_properties": ["C19", "C20"], "kind_free_text": "controlled scheduler, preemption-bounded DFS, overlay instrumenter, vector-clock HB monitor"},
             {"name": "harness", "path": "cmd/harness", "serves_properties": sorted(P), "kind_free_text": "explorers (value / wire / history / automaton) driving the real code"},
         ],
         "checks": checks,
